@@ -23,6 +23,7 @@ FSeq == << FC("upper", NoArg), FC("lower", NoArg), FC("capfirst", NoArg), FC("ad
            FC("add", Var(<<"mp", "k">>)), FC("cut", Lit(S(<<"a">>))), FC("default", Lit(S(<<"d">>))), FC("first", NoArg),
            FC("last", NoArg), FC("length", NoArg) >>
 
+FNum == << FC("add", Lit(I(2))), FC("add", Var(<<"n2">>)), FC("default", Lit(I(9))), FC("length", NoArg) >>
 Positions == <<"out", "if", "for", "with", "set", "macroarg", "macrodef", "arr", "sub", "inclpair", "cycle", "firstof",
                "ifequal", "filtertag", "scope_with", "scope_for", "operand", "ifchanged", "scope_loop", "filtertag_scope", "macro_twice", "filtertag_empty", "filtertag_quiet">>
 
@@ -81,6 +82,14 @@ Init ==
                LET arr == [t |-> "arr", items |-> IF shape = 1 THEN <<Var(<<"p">>), Lit(I(1))>> ELSE <<Lit(S(<<"z">>)), Filt(Var(<<"p">>), <<FC("upper", NoArg)>>)>>] IN
                LET chain == <<FC("default", arr), <<FC("first", NoArg), FC("last", NoArg), FC("join", Lit(S(<<",">>)))>>[tl]>> IN
                prog = At(Positions[pos], Filt(Var(<<"nope">>), chain), <<FC("cut", Lit(S(<<"a">>))), FC("cut", Lit(S(<<"b">>)))>> \o chain)
+       [] Family = "neg" ->
+            \* a sign in front of a number literal (or a name) that carries filters: the filters belong to the operand
+            \E pos \in 1..Len(Positions), n \in 1..2, a \in 1..2 :
+              \E ch \in [1..n -> 1..Len(FNum)] :
+                 LET chain == [i \in 1..n |-> FNum[ch[i]]] IN
+                 LET operand == IF a = 1 THEN Lit(I(5)) ELSE Var(<<"n2">>) IN
+                 /\ Positions[pos] # "operand"          \* (the grammar admits a sign only at the start of an expression)
+                 /\ prog = At(Positions[pos], [t |-> "neg", a |-> Filt(operand, chain)], chain)
        [] Family = "sym1" ->
             \E f \in RegFilters, a \in 1..Len(SymArgs), src \in {"sv", "n2", "l"} :
                prog = <<Out(Filt(Var(<<src>>), <<FC(f, SymArgs[a])>>))>>
@@ -99,7 +108,7 @@ Init ==
                \/ prog = <<[t |-> "filter", chain |-> <<FC(f1, NoArg), FC(f2, SymArgs[a])>>, body |-> <<T(<<"a", " ", "b">>), Out(Var(<<"n2">>))>>]>>
 Next == go = FALSE /\ go' = TRUE /\ UNCHANGED prog
 
-Res == IF Family \in {"pos", "arrparam"} THEN RenderF(prog, Ctx, Files) ELSE RenderSym(prog, Ctx, Files)
+Res == IF Family \in {"pos", "arrparam", "neg"} THEN RenderF(prog, Ctx, Files) ELSE RenderSym(prog, Ctx, Files)
 Balanced == go => ScopesBalanced(Res)
 \* on the model: the filter events of one chain appear in written order
 EmitVec == go => PrintT(ToJson([m |-> "C19", prog |-> prog, ctx |-> Ctx, files |-> Files, tags |-> <<Family>>,
